@@ -54,6 +54,8 @@ static const double SHIFT[3] = {100.5, -37.25, 12.75};
 
 static bool G_TGRID = false;   // point targets = nodes of a rotated DbGrid (set per case)
 static bool G_V2ZERO = false;  // measurement error variance of the second variable = 0 everywhere (exactness of the error-free variable)
+static bool G_PERCELL = false; // block support defined per target cell (locator BLEX), kriging through krigcell / flagPerCell
+static const double BLEXT[2][3] = {{0.9, 0.7, 0.5}, {0.5, 1.1, 0.3}};   // extensions of the two target cells
 static bool G_TCOIN = false;   // second point target placed exactly on the first sample (set per case)
 struct Setup
 {
@@ -171,6 +173,9 @@ static void build(Setup& S, const Value& cfg, const std::vector<int>& perm, cons
       }
       g->addColumns(fo, "ext", ELoc::F);
     }
+    if (G_PERCELL)
+      for (int d = 0; d < nd; d++)
+        g->addColumns(VectorDouble{BLEXT[0][d], BLEXT[1][d]}, "blex" + std::to_string(d + 1), ELoc::BLEX, d);
     S.dbout = g;
   }
   else if (S.tgrid && nd >= 2)
@@ -236,7 +241,12 @@ struct Eval
       for (int i = 0; i < ntot; i++)
       {
         std::vector<double> p(nd);
-        for (int d = 0; d < nd; d++) { int j = (i >> d) & 1; p[d] = centre[d] + g->getDX(d) * ((j + 0.5) / 2. - 0.5); }
+        for (int d = 0; d < nd; d++)
+        {
+          int j = (i >> d) & 1;
+          double ext = G_PERCELL ? BLEXT[it][d] : g->getDX(d);   // (own table, not the column of the Db)
+          p[d] = centre[d] + ext * ((j + 0.5) / 2. - 0.5);
+        }
         disc.push_back(p);
       }
     }
@@ -329,8 +339,10 @@ static Value analyse(const Value& cs, const std::string& neighKind, int imodel, 
 
   EKrigOpt calcul = S.target == "block" ? EKrigOpt::BLOCK : EKrigOpt::POINT;
   VectorInt ndiscs; if (S.target == "block") ndiscs = VectorInt(S.ndim, 2);
-  Krigtest_Res kt = krigtest(S.dbin, S.dbout, S.model, S.neigh, itarget, calcul, ndiscs, false, false);
-  int err = kriging(S.dbin, S.dbout, S.model, S.neigh, calcul, true, true, true, ndiscs);
+  Krigtest_Res kt = krigtest(S.dbin, S.dbout, S.model, S.neigh, itarget, calcul, ndiscs, G_PERCELL, false);
+  int err = G_PERCELL ? krigcell(S.dbin, S.dbout, S.model, S.neigh, true, true, ndiscs)
+                      : kriging(S.dbin, S.dbout, S.model, S.neigh, calcul, true, true, true, ndiscs);
+  std::string prefix = G_PERCELL ? "KrigCell.z" : "Kriging.z";
 
   Value o = Value::object();
   o["neq_expected"] = Value(neq);
@@ -379,12 +391,29 @@ static Value analyse(const Value& cs, const std::string& neighKind, int imodel, 
     for (int i = 0; i < ndata; i++) for (int j = 0; j < ndata; j++) vz += kt.wgt.getValue(i, v0) * L[i][j] * kt.wgt.getValue(j, v0);
     double c00 = kt.var.getValue(v0, v0);
     if (S.target == "point") o["c00_diff"] = Value(std::fabs(c00 - E.c00(v0, v0)) / std::max(1e-300, std::fabs(c00)));
+    else
+    {
+      // block variance: mean covariance between the regular discretisation of THIS block and its randomised copy
+      // (the two point sets come from the public DbGrid::getDiscretizedBlock, as the documentation of the block variance says)
+      const DbGrid* g = dynamic_cast<const DbGrid*>(S.dbout);
+      VectorVectorDouble d1 = g->getDiscretizedBlock(ndiscs, itarget, G_PERCELL, false);
+      VectorVectorDouble d2 = g->getDiscretizedBlock(ndiscs, itarget, G_PERCELL, true, 1234546);
+      double acc = 0;
+      for (auto& a : d1) for (auto& b : d2)
+      {
+        std::vector<double> pa(S.ndim), pb(S.ndim);
+        for (int d = 0; d < S.ndim; d++) { pa[d] = E.centre[d] + a[d]; pb[d] = E.centre[d] + b[d]; }
+        acc += E.cov(v0, v0, pa, pb);
+      }
+      acc /= (double)(d1.size() * d2.size());
+      o["cvv_diff"] = Value(std::max(o.getd("cvv_diff", 0.), std::fabs(c00 - acc) / std::max(1e-300, std::fabs(acc))));
+    }
     double sd2 = c00 - red;
     double sd = sd2 > 0 ? std::sqrt(sd2) : 0.;
     std::string sv = std::to_string(v0 + 1);
-    double gest = S.dbout->getValue("Kriging.z" + sv + ".estim", itarget);
-    double gstd = S.dbout->getValue("Kriging.z" + sv + ".stdev", itarget);
-    double gvz = S.dbout->getValue("Kriging.z" + sv + ".varz", itarget);
+    double gest = S.dbout->getValue(prefix + sv + ".estim", itarget);
+    double gstd = S.dbout->getValue(prefix + sv + ".stdev", itarget);
+    double gvz = G_PERCELL ? vz : S.dbout->getValue(prefix + sv + ".varz", itarget);   // (krigcell has no varz output)
     if (!std::isfinite(gest) || !std::isfinite(gstd) || gstd < 0) finite = false;
     dest = std::max(dest, std::fabs(gest - est) / std::max(1., std::fabs(est)));
     // compare variances (the standard deviation of an almost exact estimate is the square root of a round-off)
@@ -678,8 +707,9 @@ int main(int argc, char** argv)
       std::vector<int> perm(ns);
       for (int i = 0; i < ns; i++) perm[i] = run.at("perm").i() == 0 ? i : ns - 1 - i;
       G_TCOIN = run.getb("tcoin", false);
+      G_PERCELL = run.getb("percell", false);
       rec["obs"] = analyse(cs, nk, im, run.at("target").i(), perm, run.getb("tgrid", false));
-      G_TCOIN = false;
+      G_TCOIN = false; G_PERCELL = false;
     }
     else if (mode == "meta") { G_TGRID = run.getb("tgrid", false); rec["obs"] = meta(cs, nk, im); G_TGRID = false; }
     else if (mode == "cluster") rec["obs"] = clusterCase(cs, im);
